@@ -1477,7 +1477,9 @@ func adjustScalarColumns(n *yaml.Node, lines []string) {
 	for _, c := range n.Content {
 		adjustScalarColumns(c, lines)
 	}
-	if n.Kind != yaml.ScalarNode || n.Line <= 0 || n.Line > len(lines) || (n.Anchor == "" && n.Style&yaml.TaggedStyle == 0) {
+	// Note: The node is not checked for having an anchor or a tag. The non-specific tag "!" is not recorded in
+	// the node. The text of a scalar never starts with '&' nor '!'
+	if n.Kind != yaml.ScalarNode || n.Line <= 0 || n.Line > len(lines) {
 		return
 	}
 	l := []rune(lines[n.Line-1]) // Column counts characters
